@@ -6,6 +6,18 @@ import (
 	"strings"
 )
 
+// sendsControlPart: the call hands sendRPC an RPC built by rpcWithControl whose idx-th part (3 = GRAFT,
+// 4 = PRUNE) is not nil — the effect of the sendGraft / sendPrune helpers, wherever it is written.
+func sendsControlPart(p *Prog, idx int) func(fn *Func, cs CallSite) bool {
+	return func(fn *Func, cs CallSite) bool {
+		if cs.Name != fnSendRPC || len(cs.Call.Args) < 2 {
+			return false
+		}
+		v := p.R(fn).Val(cs.Call.Args[1])
+		return v.IsCall("rpcWithControl") && len(v.Args) == 6 && !isNilV(v.Args[idx])
+	}
+}
+
 func init() {
 	register(&Property{ID: "C07", Run: runC07,
 		Explain: "Admission, pairing and existence rules of the mesh, decided for every router state: (R07.1) every own-initiative graft candidate comes from getPeers with a filter that returns true only for non-direct, non-backed-off peers with score >= 0 (opportunistic: > median, after the negative-score prune), the backoff map consulted by a filter is loaded after the last prune of the same iteration, getPeers keeps only connected mesh-capable peers accepted by the filter, and every key inserted into a mesh map is such a candidate; Join's fanout promotion drops members with negative score or backoff; (R07.2) handleGraft inserts only after: topic joined, not direct, not (backoff present and unexpired), score >= 0, not (mesh >= Dhi and not outbound), peerFilter; (R07.3) graftPeer/prunePeer closures pair the mesh write with the tograft/toprune append (and backoff), sendGraftPrune is on every heartbeat path, Join GRAFTs every member of the final mesh map, Leave PRUNEs every former member; (R07.4) mesh keys are created only in Join and deleted only in Leave, Join removes the topic's fanout/lastpub, fanout entries are created only by getFanoutPeersForPublishing which is consulted only on a failed mesh lookup; (R07.5) handleGraft admits only connected peers (known finding F8 today), OnClosedOutboundStream removes the peer from every mesh and fanout map; the heartbeat's negative-score loop prunes every negatively scored member; (R07.6) every integer division/modulo of the heartbeat by a parameter is safe for every accepted parameter set (validation rejects a zero divisor on every accepting path, including the bootstrapper early return). NOT decided: the quantitative post-conditions (grown to D, cut back to D keeping Dscore best / Dout outbound) — they depend on sorting run-time scores and random selection.",
@@ -486,7 +498,7 @@ func runC07(c *RuleCtx) {
 		for i, nm := range []string{"tograft", "toprune"} {
 			_ = i
 			var loops []*ast.RangeStmt
-			for _, r := range p.RangesOver(f, func(v *V) bool { return v.Kind == "var" && v.Name == nm }) {
+			for _, r := range p.RangesOver(f, isParam(f, i)) {
 				loops = append(loops, r)
 			}
 			if len(loops) == 0 {
@@ -500,8 +512,9 @@ func runC07(c *RuleCtx) {
 	}
 	if f := c.MustFn("R07.3", "(*GossipSubRouter).Join"); f != nil {
 		g := p.Graph(f)
+		// the GRAFT loop: the range loop that traces a GRAFT for its element (the send itself is checked below)
 		var final *ast.RangeStmt
-		for _, cs := range p.Sites(f, false, "(*GossipSubRouter).sendGraft") {
+		for _, cs := range p.Sites(f, false, fnTrGraft) {
 			for _, l := range p.EnclosingLoops(cs.Call) {
 				if r, ok := l.(*ast.RangeStmt); ok {
 					final = r
@@ -511,7 +524,7 @@ func runC07(c *RuleCtx) {
 		if final == nil {
 			c.Bad("R07.3", f.Name, "GRAFT loop", f.Decl, "Join does not send GRAFT in a loop over the new mesh")
 		} else {
-			ok, why := p.LoopBodyMust(f, final, nil, p.callPred(f, "(*GossipSubRouter).sendGraft"))
+			ok, why := p.LoopBodyMust(f, final, nil, p.EffectPred(f, sendsControlPart(p, 3)))
 			c.Check(ok, "R07.3", f.Name, "GRAFT sent to every member", final, why, why)
 			ok, why = p.LoopBodyMust(f, final, nil, p.callPred(f, fnTrGraft))
 			c.Check(ok, "R07.3", f.Name, "GRAFT traced for every member", final, why, why)
@@ -537,10 +550,10 @@ func runC07(c *RuleCtx) {
 			c.Undecided("R07.3", f.Name, "loop over former members", f.Decl, "expected one loop over the former mesh")
 		}
 		for _, r := range rs {
-			for _, req := range []string{"(*GossipSubRouter).sendPrune", fnTrPrune} {
-				ok, why := p.LoopBodyMust(f, r, nil, p.callPred(f, req))
-				c.Check(ok, "R07.3", f.Name, shortFn(req)+" for every former member", r, why, why)
-			}
+			ok, why := p.LoopBodyMust(f, r, nil, p.EffectPred(f, sendsControlPart(p, 4)))
+			c.Check(ok, "R07.3", f.Name, "sendPrune for every former member", r, why, why)
+			ok, why = p.LoopBodyMust(f, r, nil, p.callPred(f, fnTrPrune))
+			c.Check(ok, "R07.3", f.Name, shortFn(fnTrPrune)+" for every former member", r, why, why)
 		}
 	}
 	// R07.4 existence
